@@ -278,16 +278,23 @@ func scalarReflectFromGo(schema *schema_j5pb.Field, value interface{}) (protoref
 		}
 
 	case *schema_j5pb.Field_Float:
+		// Text is parsed with the precision of the field: through float64, the
+		// text of the largest float32 is out of range and some values round
+		// twice.
+		bitSize := 64
+		if st.Float.Format == schema_j5pb.FloatField_FORMAT_FLOAT32 {
+			bitSize = 32
+		}
 		switch val := value.(type) {
 		case json.Number:
 			var err error
-			value, err = val.Float64()
+			value, err = strconv.ParseFloat(string(val), bitSize)
 			if err != nil {
 				return pv, err
 			}
 		case string:
 			var err error
-			value, err = strconv.ParseFloat(val, 64)
+			value, err = strconv.ParseFloat(val, bitSize)
 			if err != nil {
 				return pv, err
 			}
@@ -310,7 +317,7 @@ func scalarReflectFromGo(schema *schema_j5pb.Field, value interface{}) (protoref
 		switch st.Float.Format {
 
 		case schema_j5pb.FloatField_FORMAT_FLOAT32:
-			if val > math.MaxFloat32 || val < -math.MaxFloat32 {
+			if !math.IsInf(val, 0) && (val > math.MaxFloat32 || val < -math.MaxFloat32) {
 				return pv, fmt.Errorf("float64 value %v is out of range for float32", val)
 			}
 
